@@ -10,7 +10,7 @@ def ProcessOptions(options, document):
 
     # Sections
     context.newcounter('part', resetby='volume',
-                       format='$part')
+                       format='${part.Roman}')
     context.newcounter('chapter', resetby='volume',
                        format='$chapter')
     context.newcounter('section', resetby='chapter',
